@@ -5,7 +5,10 @@
                           client_closed; callbacks_after_close; sel_after_close; cs; VL chan]]
    accepted = number of labels accepted (= length labels iff the model accepts the trace);
    the state is the one reached after the accepted prefix.
-   transport: 0 ssh, 1 tls, 2 unix.   actor: 0 client, 1 worker.
+   transport: 0 ssh, 1 tls, 2 unix.
+   actor = the caller of the close() as measured by the harness (Model/CloseCallers.v caller_of_code): 0 main thread,
+     1 the session's own thread, 2 another application thread, 3 the thread of ANOTHER session (one of its listeners
+     closes this session); mapped by actor_of: only 1 is the actor Worker, every other caller is a Client.
    cstep: 0 SetClosing, 1 ClearConn, 2 CloseHandle, 3 JoinW, 4 ChanDrop.
    labels: [0] OpenHandle [1] SockCleanup [2] ConnectFail [3] SetConn [4] Start [5] HelloOk
      [6 rid acc] Submit [7] CloseCall [8 actor cstep did] CStep [9 actor] CloseRet [10] CsBegin [11] CsRet
@@ -16,14 +19,14 @@
      [26] Block (the read in progress sleeps inside the transport) [27] Unblock (it goes on, the handle still open)
    worker: 0 not started, 1..12 as the constructors of wpc without WBlocked, 13 WBlocked
    chan: the chunks still buffered in the SSH channel (their message counts) *)
-From NC Require Import Model.Base Model.Close.
+From NC Require Import Model.Base Model.Close Model.CloseCallers.
 
 Definition nb (n : N) : bool := negb (N.eqb n 0).
 
 Definition dec_tr (n : N) : option transport :=
   match n with 0 => Some Ssh | 1 => Some Tls | 2 => Some Unix | _ => None end.
 Definition dec_actor (n : N) : option actor :=
-  match n with 0 => Some Client | 1 => Some Worker | _ => None end.
+  match caller_of_code n with Some c => Some (actor_of c) | None => None end.
 Definition dec_cstep (n : N) : option cstep :=
   match n with 0 => Some SetClosing | 1 => Some ClearConn | 2 => Some CloseHandle | 3 => Some JoinW
              | 4 => Some ChanDrop | _ => None end.
